@@ -52,21 +52,27 @@ def measure(f, cuts, bisect_tol=1e-13):
         if fa == fb:
             lengths[fa] = lengths.get(fa, 0.0) + gap
             continue
-        nbis += 1
-        x, y = a, b
-        while y - x > bisect_tol:
-            m = 0.5 * (x + y)
-            fm = f(m)
-            seen.add(fm)
-            if fm == fa:
-                x = m
-            else:
-                y = m
-        c = 0.5 * (x + y)
-        fy = f(y)
-        seen.add(fy)
-        lengths[fa] = lengths.get(fa, 0.0) + (c - lo)
-        lengths[fy] = lengths.get(fy, 0.0) + (hi - c)
+        # one or more break points inside the gap: peel them off from the left
+        left_edge, cur_a, cur_fa = lo, a, fa
+        while cur_fa != fb:
+            nbis += 1
+            x, y = cur_a, b
+            while y - x > bisect_tol:
+                m = 0.5 * (x + y)
+                fm = f(m)
+                seen.add(fm)
+                if fm == cur_fa:
+                    x = m
+                else:
+                    y = m
+            c = 0.5 * (x + y)
+            fy = f(y)
+            seen.add(fy)
+            lengths[cur_fa] = lengths.get(cur_fa, 0.0) + (c - left_edge)
+            left_edge, cur_a, cur_fa = c, y, fy
+            if nbis > 100000:
+                break
+        lengths[cur_fa] = lengths.get(cur_fa, 0.0) + (hi - left_edge)
     return lengths, seen, nbis
 
 
